@@ -283,3 +283,31 @@ def twin_case(r):
                 for _ in range(r.choice([1, 2, 5])):
                     ops.append("replayack 3 %d 2" % r.randrange(1000))   # delayed replay of an earlier ack frame
     return ops
+
+
+def reuse_case(r):
+    """Small packet windows and same-shaped multi-fragment packets with fragment loss: a slot is reused by a
+    packet with identical header fields exactly one window after a partially received packet was abandoned."""
+    c = pick_cfg(r)
+    c["W"] = r.choice([2, 4, 4, 8])
+    c["alloc"] = [100000, 100000]
+    ops = ["seed %d" % r.randrange(U32)] + hcnew_lines(c)
+    now = 0
+    k = 0
+    nfr = r.choice([2, 2, 3])
+    for t in range(r.choice([12, 25, 40])):
+        now += r.choice([20, 100, 2500, 2500])
+        for e in (0,):
+            for _ in range(r.choice([1, 1, 2])):
+                ln = (nfr - 1) * F + r.choice([1, 5, 700, F])
+                ops.append("send %d %d %d %d %d" % (e, 0, r.choice([1, 1, 1, 0, 2]), ln, k)); k += 1
+            ops.append("step %d %d" % (e, now))
+            ops.append("credit %d 100000" % e)
+            ops.append("flush %d" % e)
+            ops.append("relay %d %d %d 0 0 %d" % (e, 1 - e, r.choice([0, 250, 400, 500]), r.randrange(2 ** 31)))
+            ops.append("recv %d" % (1 - e))
+        ops.append("step 1 %d" % now)
+        ops.append("credit 1 100000")
+        ops.append("flush 1")
+        ops.append("relay 1 0 0 0 0 1")
+    return ops
